@@ -253,19 +253,43 @@ func runCurry(sc curryScenario) (o outcome) {
 	// one whole block, each goroutine's blocks in its own call order
 	next := make([]int, len(sc.Blocks))
 	var prev []int
+	empties := 0 // invocations that saw no new argument (Calls with an empty argument list), not yet attributed
 	for i, r := range recs {
-		if len(r) <= len(prev) || !equalInts(r[:len(prev)], prev) {
+		if len(r) < len(prev) || !equalInts(r[:len(prev)], prev) {
 			fail("accumulation", "invocation %d saw %v, which does not extend the previous argument list %v", i+1, r, prev)
 			return
 		}
+		if len(r) == len(prev) {
+			empties++
+			continue
+		}
 		ext := r[len(prev):]
 		g := ext[0] / 1000
+		// the empty Calls this caller made before this one have been invoked before it
+		for g >= 0 && g < len(sc.Blocks) && next[g] < len(sc.Blocks[g]) && len(sc.Blocks[g][next[g]]) == 0 {
+			if empties == 0 {
+				fail("accumulation", "invocation %d saw %v: caller %d's earlier Call() without arguments was not invoked before it", i+1, r, g)
+				return
+			}
+			empties--
+			next[g]++
+		}
 		if g < 0 || g >= len(sc.Blocks) || next[g] >= len(sc.Blocks[g]) || !equalInts(ext, sc.Blocks[g][next[g]]) {
 			fail("accumulation", "invocation %d saw %v: the new part %v is not the next whole block of one caller (previous list %v)", i+1, r, ext, prev)
 			return
 		}
 		next[g]++
 		prev = r
+	}
+	for g := range sc.Blocks {
+		for next[g] < len(sc.Blocks[g]) && len(sc.Blocks[g][next[g]]) == 0 && empties > 0 {
+			empties--
+			next[g]++
+		}
+	}
+	if empties != 0 {
+		fail("accumulation", "%d invocations saw no new argument although no Call() without arguments was due", empties)
+		return
 	}
 
 	// (3) Result is the value of the last invocation (the one that saw all
@@ -329,7 +353,7 @@ func genCurry(t *rapid.T) curryScenario {
 		calls := rapid.IntRange(1, 5).Draw(t, "calls")
 		var blocks [][]int
 		for c := 0; c < calls; c++ {
-			n := rapid.IntRange(1, 3).Draw(t, "blocklen")
+			n := rapid.SampledFrom([]int{0, 1, 1, 2, 3}).Draw(t, "blocklen") // 0: a Call with no arguments is a Call
 			b := make([]int, n)
 			for p := range b {
 				b[p] = i*1000 + c*10 + p
